@@ -311,10 +311,26 @@ func runC04(w *World, pi interface{}) {
 	}
 	if p.CliMux {
 		mux := &lime.EnvelopeMux{}
-		mux.MessageHandlerFunc(nil, func(ctx context.Context, m *lime.Message, s lime.Sender) error { cliSink.add(KMessage, m); cliDelay(); return nil })
-		mux.NotificationHandlerFunc(nil, func(ctx context.Context, n *lime.Notification) error { cliSink.add(KNotification, n); cliDelay(); return nil })
-		mux.RequestCommandHandlerFunc(nil, func(ctx context.Context, c *lime.RequestCommand, s lime.Sender) error { cliSink.add(KRequest, c); cliDelay(); return nil })
-		mux.ResponseCommandHandlerFunc(nil, func(ctx context.Context, c *lime.ResponseCommand, s lime.Sender) error { cliSink.add(KResponse, c); cliDelay(); return nil })
+		mux.MessageHandlerFunc(nil, func(ctx context.Context, m *lime.Message, s lime.Sender) error {
+			cliSink.add(KMessage, m)
+			cliDelay()
+			return nil
+		})
+		mux.NotificationHandlerFunc(nil, func(ctx context.Context, n *lime.Notification) error {
+			cliSink.add(KNotification, n)
+			cliDelay()
+			return nil
+		})
+		mux.RequestCommandHandlerFunc(nil, func(ctx context.Context, c *lime.RequestCommand, s lime.Sender) error {
+			cliSink.add(KRequest, c)
+			cliDelay()
+			return nil
+		})
+		mux.ResponseCommandHandlerFunc(nil, func(ctx context.Context, c *lime.ResponseCommand, s lime.Sender) error {
+			cliSink.add(KResponse, c)
+			cliDelay()
+			return nil
+		})
 		go func() { mux.ListenClient(cctx, ch) }()
 	} else {
 		go func() {
